@@ -50,7 +50,7 @@ theorem write_rejected_unchanged (H : Handlers) (srv : Server) (cells : List Byt
   | charDecl _ _ _ _ _ => rfl
   | userDesc _ => simp only []; split <;> rfl
   | descriptor _ => rfl
-  | cstring _ => simp only []; split <;> rfl
+  | cstring _ _ => simp only []; split <;> rfl
   | fixed _ _ => simp only []; split <;> (try split) <;> rfl
   | bound cell size r w =>
     rw [hkind] at hne
@@ -79,10 +79,10 @@ theorem read_refines (H : Handlers) (srv : Server) (cells : List Bytes) (c : Con
 /-- **no_write_enforced**: values without write access (no_write_access, const, fixed values,
     cstring / blob values) refuse every write, whatever offset and length, and change nothing -/
 theorem no_write_enforced (H : Handlers) (srv : Server) (cells : List Bytes) (c : Conn) (a : Attr) (off : Nat) (v : Bytes)
-    (hk : (∃ cell size r, a.kind = .bound cell size r false) ∨ (∃ val r, a.kind = .fixed val r) ∨ (∃ val, a.kind = .cstring val)) :
+    (hk : (∃ cell size r, a.kind = .bound cell size r false) ∨ (∃ val r, a.kind = .fixed val r) ∨ (∃ val nr, a.kind = .cstring val nr)) :
     (∃ code, (writeAccess H srv cells c a off v).1 = .err code) ∧ (writeAccess H srv cells c a off v).2 = (cells, c.cccd) := by
   unfold writeAccess
-  rcases hk with ⟨cell, size, r, hk⟩ | ⟨val, r, hk⟩ | ⟨val, hk⟩
+  rcases hk with ⟨cell, size, r, hk⟩ | ⟨val, r, hk⟩ | ⟨val, nr, hk⟩
   · rw [hk]; dsimp only
     cases secCheck (requiresEnc srv.enc a) c <;> simp
   · rw [hk]; dsimp only
@@ -110,10 +110,10 @@ def properties_match_permissions_full : Prop :=
 /-- **properties_match_permissions (partial)**: holds for every value kind except handler values -/
 theorem properties_match_permissions_partial (H : Handlers) (srv : Server) (cells : List Bytes) (c : Conn) (idx : Nat) (a : Attr)
     (off room : Nat)
-    (hk : (∃ cell size r w, a.kind = .bound cell size r w) ∨ (∃ val r, a.kind = .fixed val r) ∨ (∃ val, a.kind = .cstring val))
+    (hk : (∃ cell size r w, a.kind = .bound cell size r w) ∨ (∃ val r, a.kind = .fixed val r) ∨ (∃ val nr, a.kind = .cstring val nr))
     (hd : declaresRead a.kind = false) : (readAccess H srv cells c idx a off room).1 ≠ .success := by
   unfold readAccess
-  rcases hk with ⟨cell, size, r, w, hk⟩ | ⟨val, r, hk⟩ | ⟨val, hk⟩ <;> rw [hk] at hd ⊢ <;>
+  rcases hk with ⟨cell, size, r, w, hk⟩ | ⟨val, r, hk⟩ | ⟨val, nr, hk⟩ <;> rw [hk] at hd ⊢ <;>
     simp [declaresRead, valueAccessFlags] at hd
   · subst hd
     simp only []
@@ -144,7 +144,7 @@ example : writeAccess Handlers.std wHandlerSrv [[1, 2, 3, 4]] ⟨23, [], false, 
 /-- the attribute kinds that carry the characteristic's encryption requirement: the value (all
     value kinds) and the client characteristic configuration -/
 def protectable : Kind → Bool
-  | .bound _ _ _ _ | .fixed _ _ | .cstring _ | .handler _ _ _ _ | .cccd _ => true
+  | .bound _ _ _ _ | .fixed _ _ | .cstring _ _ | .handler _ _ _ _ | .cccd _ => true
   | _ => false
 
 /-- the rejection code of the sentence -/
